@@ -138,6 +138,17 @@ class Negotiated:
                 for family in recv_mp:
                     if family in sent_mp:
                         self.families.append(family)
+        elif not recv_capa.announced(Capability.CODE.MULTIPROTOCOL):
+            # a plain BGP-4 speaker (no Multiprotocol capability): the session carries IPv4 unicast (RFC 4271), the
+            # capability is how anything else is agreed (RFC 4760 section 8). With no family at all the session was
+            # established and carried nothing: no route, and a KEEPALIVE where the End-of-RIB should be.
+            ipv4_unicast = (AFI.ipv4, SAFI.unicast)
+            if not sent_capa.announced(Capability.CODE.MULTIPROTOCOL):
+                self.families.append(ipv4_unicast)
+            else:
+                sent_mp = sent_capa[Capability.CODE.MULTIPROTOCOL]
+                if isinstance(sent_mp, MultiProtocol) and ipv4_unicast in sent_mp:
+                    self.families.append(ipv4_unicast)
 
         self.nexthop = []
         if recv_capa.announced(Capability.CODE.NEXTHOP) and sent_capa.announced(Capability.CODE.NEXTHOP):
